@@ -129,6 +129,16 @@ def run_op(case):
         w = rng.random(kshape) + 0.1
     elif wk == "percoil":
         w = rng.random([nc] + kshape) + 0.1
+    if w is not None and case["oseed"] % 4 == 0:
+        w = rng.integers(0, 5, size=w.shape)            # integer weights (acquisition counts)
+        wk += "-int"
+    if coord is not None and case["oseed"] % 3 == 0:
+        # history: an operator for ANOTHER trajectory of the same shape was built and used
+        # earlier in this process
+        c_other = np.ascontiguousarray(make_coord(rng, "random", img, coord.shape[0]))
+        if c_other.shape == coord.shape:
+            Apre = mr.linop.Sense(mps, coord=c_other, weights=w)
+            Apre(x)
     sig = "|".join(map(str, ["op", nd, "".join("o" if s % 2 else "e" for s in img), traj, wk,
                              "tseg" if tseg else "-", "nc%d" % min(nc, 3),
                              "c64" if single else "c128"]))
